@@ -75,6 +75,11 @@ CHECKS = {
    category="model_checking", design_ref="§5 C14",
    text="For +, -, *, / (measurement or plain quantity on either side) and integer powers -4..4 over a grid of measurands (both signs, zero), uncertainties (zero included) and unit re-expressions, TLC computes the exact physical measurand and variance; the real library's result is mapped to SI with exact sizes and compared (1e-9 on the variance); exceptions where the formula is finite are violations; cases run in fresh forks and in shared processes in two orders.",
    note="Rational grid; the code's float square root is squared by alpha; independence of inputs is the property's own assumption."),
+
+ "C19": dict(engine="names", technique="TLA+ spec Names.tla (validate-then-commit declarations, lookups as a function of the registries) model-checked with TLC; every transition replayed on the real library (spec->code) and declaration/lookup traces recorded while the shipped modules import under several orders validated by TLC (code->spec)",
+   category="model_checking", design_ref="§5 C19",
+   text="All orders of anonymous construction, define/derive/alias/named construction and lookups over a small universe, including every failing call (taken name, taken symbol, symbol with a space, non-string symbol in every argument position), are enumerated by TLC; after each real call the lookup tables, the names/symbols objects report, uniqueness over time and atomicity of failures are compared. The declarations and probing lookups made during import of the shipped modules (one real subprocess per import order) are recorded from outside and checked by TLC against the same clauses.",
+   note="Universe and depth in evidence; dimensions' names are not modelled (Dimension.derive has no failure mode); orphan intern entries are a separate clause."),
 }
 BUILT = set(CHECKS)
 m = {"version": 1, "setup_cmd": "./setup.sh",
@@ -89,6 +94,7 @@ m = {"version": 1, "setup_cmd": "./setup.sh",
    {"name": "intern", "path": "spec/InternAtomic.tla spec/MC_InternTrace.tla spec/InternShipped.tla harness/sched.py harness/intern.py", "serves_properties": ["C20"], "kind_free_text": "systematic schedule exploration of the real code + TLC trace validation (linearizability)"},
    {"name": "lr", "path": "spec/LR.tla spec/MC_LR.tla harness/lr.py", "serves_properties": ["C16", "C17"], "kind_free_text": "complete product of LALR tables + LR interpreter + engine trace validation + differential parsing"},
    {"name": "uncertainty", "path": "spec/Uncertainty.tla spec/MC_Uncertainty.tla harness/uncertainty.py", "serves_properties": ["C14"], "kind_free_text": "TLC exact variance oracle + replay"},
+   {"name": "names", "path": "spec/Names.tla spec/MC_Names.tla spec/MC_NamesTrace.tla harness/names.py harness/names_recorder.py", "serves_properties": ["C19"], "kind_free_text": "TLC model checking + replay + TLC trace validation of import-time declarations"},
    {"name": "registry", "path": "spec/Registry.tla spec/MC_Registry.tla harness/registry.py harness/alpha.py", "serves_properties": ["C01", "C02", "C15"], "kind_free_text": "TLC model checking + spec->code replay of every transition (fork tree)"},
  ],
  "checks": [], "notes": "Every check: ./check <id> [--tier quick|thorough]; exit 0 held / 1 VIOLATION / 2 machinery failure. known_findings.txt lists genuine defects left unrepaired and repairs made.",
